@@ -261,7 +261,10 @@ def invariant_parts(ctx, st, side):
         # (a server may answer a search with a non-search final response; the property does not
         # specify mismatched kinds, so the search registry is not required to follow there)
         for x in S:
+            # a search in progress is an outstanding operation: C09's bookkeeping, and also what
+            # C08's "no bind while operations are outstanding" is evaluated against
             parts["C09"].append(in_set(ctx, x, O))
+            parts["C08"].append(in_set(ctx, x, O))
     if st["state"] == "BEFORE_OPEN":
         parts["C08"].append(len(O) == 0)
     if st["state"] == "CLOSED":
